@@ -80,7 +80,8 @@ def gen_index(g, shape):
     """A valid index expression for an array of the given shape."""
     rng = g.rng
     ndim = len(shape)
-    style = rng.choice(["basic", "basic", "basic", "adv", "bool", "mixed", "ell", "none"])
+    style = rng.choice(["basic", "basic", "basic", "adv", "bool", "mixed", "ell", "none", "sepadv",
+                        "sepadv"])
     if ndim == 0:
         return rng.choice([(), Ellipsis, None, (None,), (Ellipsis, None)])
 
@@ -120,6 +121,23 @@ def gen_index(g, shape):
         rows = [rng.randrange(shape[0]) for _ in range(2)]
         cols = [rng.randrange(shape[1]) for _ in range(2)]
         return (numpy.array(rows), numpy.array(cols))
+    if style == "sepadv" and ndim >= 3:
+        # advanced indices separated by a slice: numpy moves the broadcast axes first
+        count = rng.randint(1, 3)
+        first = [rng.randrange(shape[0]) for _ in range(count)]
+        last = [rng.randrange(shape[2]) for _ in range(count)]
+        middle = rng.choice([slice(None), slice(0, shape[1]), slice(None, None, -1)])
+        form = rng.choice(["lists", "int_first", "int_last", "arrays"])
+        if form == "lists":
+            return (first, middle, last)
+        if form == "int_first":
+            return (first[0], middle, last)
+        if form == "int_last":
+            return (first, middle, last[0])
+        return (numpy.array(first), middle, numpy.array(last))
+    if style == "sepadv" and ndim == 2:
+        rows = [rng.randrange(shape[0]) for _ in range(rng.randint(1, 3))]
+        return (rows, slice(None, None, rng.choice([1, -1])))
     if style == "ell":
         return (Ellipsis, basic(shape[-1]))
     if style == "none":
@@ -739,6 +757,60 @@ Op("ediff1d", "reduce", _gen_ediff1d, _ediff1d_call, _ediff1d_model)
 def _small(g, shape, kind=None):
     return g.poly(shape=shape, nterms=g.rng.choice([1, 2, 2, 3]), maxexp=2,
                   kind=kind or g.rng.choice(["int", "int", "float"]))
+
+
+def _ufunc_axis(kw, ndim):
+    """numpy's own default for ufunc.reduce / accumulate is axis=0."""
+    axis = kw.get("axis", 0) if "axis" in kw else 0
+    return axis
+
+
+def _gen_ufunc_reduce(g):
+    case = _gen_reduce(axis_tuple=False, keepdims=False, mindim=1)(g)
+    case["kw"].pop("keepdims", None)
+    if case["kw"].get("axis", 0) is None:
+        case["kw"].pop("axis")
+    return case
+
+
+def _ureduce_kw(kw):
+    return {"axis": kw["axis"]} if "axis" in kw else {}
+
+
+Op("add.reduce", "reduce", _gen_ufunc_reduce,
+   lambda ns, ops, kw: numpy.add.reduce(ops[0], **_ureduce_kw(kw)),
+   lambda mods, kw: M.m_reduce(M.m_sum_list, mods[0], axis=_ufunc_axis(kw, mods[0].ndim)),
+   npname="add")
+
+
+def _gen_ufunc_prod(g):
+    case = _gen_prod(g)
+    case["kw"].pop("keepdims", None)
+    if isinstance(case["kw"].get("axis"), list) or case["kw"].get("axis", 0) is None:
+        case["kw"].pop("axis")
+    if not case["operands"][0]["shape"]:
+        case["operands"][0] = g.poly(shape=(2,), nterms=2, maxexp=1, names=["q0"], kind="int")
+    return case
+
+
+Op("multiply.reduce", "reduce", _gen_ufunc_prod,
+   lambda ns, ops, kw: numpy.multiply.reduce(ops[0], **_ureduce_kw(kw)),
+   lambda mods, kw: M.m_reduce(M.m_prod_list, mods[0], axis=_ufunc_axis(kw, mods[0].ndim)),
+   npname="multiply")
+
+
+def _gen_ufunc_accumulate(g):
+    shape = nd_shape(g, mindim=1)
+    kw = {}
+    if g.rng.random() < 0.6:
+        kw["axis"] = axis_of(g, len(shape))
+    return {"operands": [poly_of(g, shape, maxexp=2)], "kw": kw}
+
+
+Op("add.accumulate", "reduce", _gen_ufunc_accumulate,
+   lambda ns, ops, kw: numpy.add.accumulate(ops[0], **_ureduce_kw(kw)),
+   lambda mods, kw: _cumsum_model(mods, {"axis": _ufunc_axis(kw, mods[0].ndim)}),
+   npname="add")
 
 
 def _gen_inner(g):
